@@ -7,11 +7,11 @@
    parameterised by SourceCharacter SC; theorems quantify over SC and over inputs made of SC characters,
    so they hold for SC_scalar (all &str inputs) and for SC_oct2021 (inputs within the strict set).
 
-   Two deviations of the unchanged code from the full statement, each with a refutation below:
-   - quoted_leading_line_terminator: a quoted string whose first character is LF or CR is returned as an
-     error-free StringValue token (lex_leading_lt / lex_has_leading_lt is the decidable class);
-   - oct2021_source_character (DESIGN.md D4): characters outside the October 2021 SourceCharacter set
-     are accepted inside comments and strings. *)
+   One deviation of the code from the statement read with the strict October 2021 SourceCharacter set,
+   with its refutation below: oct2021_source_character (DESIGN.md D4) -- characters outside that set are
+   accepted inside comments and strings.  (A second deviation found while modelling -- a line terminator
+   right after the opening quote was accepted -- was repaired in /repo, commit 4dbec7a; the model follows
+   the repaired code.) *)
 From ApolloVerif Require Import Base.Chars Lex.Item Lex.Fun Lex.Spec Lex.LexProofs Lex.LexSound
   Lex.LexMain Lex.LexLimit.
 
@@ -44,69 +44,40 @@ Check C03_eof : forall s,
 Print Assumptions C03_eof.
 
 (* Each token is a lexeme of its kind, its lookahead restriction holds for the text that follows,
-   and no lexeme of ANY kind at the same position is longer (maximal munch).
-   Full statement (without the hypothesis lex_leading_lt d = false): refuted below. *)
+   and no lexeme of ANY kind at the same position is longer (maximal munch). *)
 Theorem C03_tokens_are_munch : forall SC s pre k d idx post, Forall SC s ->
-  lex_all s = pre ++ ITok k d idx :: post -> k <> TkEof -> lex_leading_lt d = false ->
+  lex_all s = pre ++ ITok k d idx :: post -> k <> TkEof ->
   Munch SC k d (concat (map item_data post)).
 Proof. exact tokens_are_munch. Qed.
 Check C03_tokens_are_munch : forall SC s pre k d idx post, Forall SC s ->
-  lex_all s = pre ++ ITok k d idx :: post -> k <> TkEof -> lex_leading_lt d = false ->
+  lex_all s = pre ++ ITok k d idx :: post -> k <> TkEof ->
   Munch SC k d (concat (map item_data post)).
 Print Assumptions C03_tokens_are_munch.
 
-Theorem C03_tokens_are_munch_refuted :
-  exists s pre k d idx post, Forall SC_oct2021 s /\ lex_all s = pre ++ ITok k d idx :: post /\ k <> TkEof /\
-    ~ Munch SC_scalar k d (concat (map item_data post)).
-Proof. exact tokens_are_munch_refuted. Qed.
-Check C03_tokens_are_munch_refuted :
-  exists s pre k d idx post, Forall SC_oct2021 s /\ lex_all s = pre ++ ITok k d idx :: post /\ k <> TkEof /\
-    ~ Munch SC_scalar k d (concat (map item_data post)).
-Print Assumptions C03_tokens_are_munch_refuted.
-
-(* The sharp characterisation: an input is a sequence of valid lexical tokens and ignored tokens
-   exactly when the lexer reports no error and the known deviation does not occur. *)
-Theorem C03_valid_iff : forall SC s, Forall SC s ->
-  (LexicallyValid SC s <-> no_lex_error s = true /\ lex_has_leading_lt s = false).
-Proof. exact valid_iff. Qed.
-Check C03_valid_iff : forall SC s, Forall SC s ->
-  (LexicallyValid SC s <-> no_lex_error s = true /\ lex_has_leading_lt s = false).
-Print Assumptions C03_valid_iff.
-
-(* No error iff lexically valid, outside the known class.
-   Full statement (without lex_has_leading_lt s = false): refuted below. *)
-Theorem C03_no_error_iff : forall SC s, Forall SC s -> lex_has_leading_lt s = false ->
+(* The lexer reports no error exactly when the input is a sequence of valid lexical tokens and ignored
+   tokens; for every SourceCharacter set SC and every input made of SC characters. *)
+Theorem C03_no_error_iff : forall SC s, Forall SC s ->
   (no_lex_error s = true <-> LexicallyValid SC s).
 Proof. exact no_error_iff. Qed.
-Check C03_no_error_iff : forall SC s, Forall SC s -> lex_has_leading_lt s = false ->
+Check C03_no_error_iff : forall SC s, Forall SC s ->
   (no_lex_error s = true <-> LexicallyValid SC s).
 Print Assumptions C03_no_error_iff.
 
-(* the instance for every &str input *)
-Corollary C03_no_error_iff_scalar : forall s, Forall scalar s -> lex_has_leading_lt s = false ->
+(* the instance for every &str input: SourceCharacter = any Unicode scalar value *)
+Corollary C03_no_error_iff_scalar : forall s, Forall scalar s ->
   (no_lex_error s = true <-> LexicallyValid SC_scalar s).
 Proof. exact (no_error_iff SC_scalar). Qed.
-Check C03_no_error_iff_scalar : forall s, Forall scalar s -> lex_has_leading_lt s = false ->
+Check C03_no_error_iff_scalar : forall s, Forall scalar s ->
   (no_lex_error s = true <-> LexicallyValid SC_scalar s).
 Print Assumptions C03_no_error_iff_scalar.
 
-Theorem C03_no_error_iff_refuted :
-  exists s, Forall SC_oct2021 s /\ Forall SC_scalar s /\ no_lex_error s = true /\
-            ~ LexicallyValid SC_oct2021 s /\ ~ LexicallyValid SC_scalar s.
-Proof. exact no_error_iff_refuted. Qed.
-Check C03_no_error_iff_refuted :
-  exists s, Forall SC_oct2021 s /\ Forall SC_scalar s /\ no_lex_error s = true /\
-            ~ LexicallyValid SC_oct2021 s /\ ~ LexicallyValid SC_scalar s.
-Print Assumptions C03_no_error_iff_refuted.
-
-(* D4: for arbitrary &str inputs the iff fails under the strict October 2021 SourceCharacter *)
+(* D4: for arbitrary &str inputs the iff fails under the strict October 2021 SourceCharacter
+   (witness: hash U+0001) *)
 Theorem C03_no_error_iff_oct2021_refuted :
-  exists s, Forall scalar s /\ no_lex_error s = true /\ lex_has_leading_lt s = false /\
-            ~ LexicallyValid SC_oct2021 s.
+  exists s, Forall scalar s /\ no_lex_error s = true /\ ~ LexicallyValid SC_oct2021 s.
 Proof. exact no_error_iff_oct2021_refuted. Qed.
 Check C03_no_error_iff_oct2021_refuted :
-  exists s, Forall scalar s /\ no_lex_error s = true /\ lex_has_leading_lt s = false /\
-            ~ LexicallyValid SC_oct2021 s.
+  exists s, Forall scalar s /\ no_lex_error s = true /\ ~ LexicallyValid SC_oct2021 s.
 Print Assumptions C03_no_error_iff_oct2021_refuted.
 
 (* Lexer::with_limit(n): the first n items and then the limit error, or everything when there are at
@@ -132,12 +103,13 @@ Example C03_nonvacuous_stream :
    IErr ELex [49; 46; 125] 5; ITok TkEof [] 8].
 Proof. vm_compute. reflexivity. Qed.
 
-(* `{a:-1.5e3,"x\n" """b"""...#c` : meets the hypotheses of the munch and iff theorems and is valid *)
+(* lcurly a colon -1.5e3 comma, the quoted string x\n, a space, the block string b, a spread, a comment:
+   meets the hypotheses of the munch and iff theorems and is valid *)
 Definition ex_valid : str :=
   [123; 97; 58; 45; 49; 46; 53; 101; 51; 44; 34; 120; 92; 110; 34; 32; 34; 34; 34; 98; 34; 34; 34; 46; 46; 46; 35; 99].
 Example C03_nonvacuous_valid :
   Forall SC_oct2021 ex_valid /\ Forall scalar ex_valid /\
-  no_lex_error ex_valid = true /\ lex_has_leading_lt ex_valid = false /\
+  no_lex_error ex_valid = true /\
   LexicallyValid SC_oct2021 ex_valid /\
   lex_all ex_valid =
     [ITok TkLCurly [123] 0; ITok TkName [97] 1; ITok TkColon [58] 2] ++
@@ -146,24 +118,21 @@ Example C03_nonvacuous_valid :
      ITok TkStringValue [34; 34; 34; 98; 34; 34; 34] 16; ITok TkSpread [46; 46; 46] 23;
      ITok TkComment [35; 99] 26; ITok TkEof [] 28].
 Proof.
-  assert (H1 : Forall SC_oct2021 ex_valid) by (repeat constructor; unfold SC_oct2021; lia).
+  assert (H1 : Forall SC_oct2021 ex_valid) by (apply sc_oct2021_forall; vm_compute; reflexivity).
   assert (H2 : no_lex_error ex_valid = true) by (vm_compute; reflexivity).
-  assert (H3 : lex_has_leading_lt ex_valid = false) by (vm_compute; reflexivity).
-  split; [exact H1|]. split; [repeat constructor; unfold scalar; lia|].
-  split; [exact H2|]. split; [exact H3|].
-  split; [apply (C03_no_error_iff SC_oct2021 ex_valid H1 H3); exact H2|].
+  split; [exact H1|]. split; [apply scalar_forall; vm_compute; reflexivity|].
+  split; [exact H2|].
+  split; [apply (C03_no_error_iff SC_oct2021 ex_valid H1); exact H2|].
   vm_compute. reflexivity.
 Qed.
 
 (* an invalid input inside the theorems' hypotheses: `1.` *)
 Example C03_nonvacuous_invalid :
-  Forall SC_oct2021 [49; 46] /\ lex_has_leading_lt [49; 46] = false /\ no_lex_error [49; 46] = false /\
-  ~ LexicallyValid SC_oct2021 [49; 46].
+  Forall SC_oct2021 [49; 46] /\ no_lex_error [49; 46] = false /\ ~ LexicallyValid SC_oct2021 [49; 46].
 Proof.
-  assert (H1 : Forall SC_oct2021 [49; 46]) by (repeat constructor; unfold SC_oct2021; lia).
-  assert (H3 : lex_has_leading_lt [49; 46] = false) by (vm_compute; reflexivity).
-  split; [exact H1|]. split; [exact H3|]. split; [vm_compute; reflexivity|].
-  intros HV. apply (C03_no_error_iff SC_oct2021 _ H1 H3) in HV. vm_compute in HV. discriminate.
+  assert (H1 : Forall SC_oct2021 [49; 46]) by (apply sc_oct2021_forall; vm_compute; reflexivity).
+  split; [exact H1|]. split; [vm_compute; reflexivity|].
+  intros HV. apply (C03_no_error_iff SC_oct2021 _ H1) in HV. vm_compute in HV. discriminate.
 Qed.
 
 (* the limit: `a b` has 4 items; limit 2 cuts after the whitespace, limit 3 reports index len-1 *)
